@@ -18,8 +18,9 @@ KEYS = ['', '.', '..', 'k1', 'k2', 'new', 'a/b', '/abs', '../outside', 'k1/../k1
         'pickle__T__0123abcd', '.gitignore', '~', 'k1/f1', 'lnk_deep', '*', 'k 1', '-rf', 'K1']
 FILES = ['', '.', '..', 'f1', 'newfile', 'sub/inner', '/etc/passwd_lv', '../k2/g', '../../outside/canary', 'flnk_out',
          'flnk_in', 'flnk_self', 'flnk_dangling', 'flnk_sib', 'sub', 'f1\x00', 'a\\b', 'metadata.json', 'data.pickle',
-         'sub/../f1', './f1', 'flnk_dir', 'é', ' ']
+         'sub/../f1', './f1', 'flnk_dir', 'é', ' ', '../k1x/g', 'flnk_px']
 MODES = ['r', 'w', 'wb', 'a', 'x', 'r+', 'rb', 'w+']
+CWD0 = os.getcwd()
 
 
 def build_sandbox(base, variant):
@@ -28,8 +29,9 @@ def build_sandbox(base, variant):
     outside = os.path.join(base, 'outside')
     os.makedirs(os.path.join(store, 'k1', 'sub'))
     os.makedirs(os.path.join(store, 'k2'))
+    os.makedirs(os.path.join(store, 'k1x'))         # a sibling key whose name extends 'k1'
     os.makedirs(os.path.join(outside, 'odir'))
-    for p, c in (('store/k1/f1', 'one'), ('store/k1/sub/inner', 'in'), ('store/k2/g', 'g'), ('store/plainfile', 'pf'),
+    for p, c in (('store/k1/f1', 'one'), ('store/k1/sub/inner', 'in'), ('store/k2/g', 'g'), ('store/k1x/g', 'gx'), ('store/plainfile', 'pf'),
                  ('outside/canary', 'canary'), ('outside/odir/deep', 'deep')):
         with open(os.path.join(base, p), 'w') as f:
             f.write(c)
@@ -51,6 +53,7 @@ def build_sandbox(base, variant):
     L('nothing', os.path.join(k1, 'flnk_dangling'))
     L('../k2/g', os.path.join(k1, 'flnk_sib'))
     L('sub', os.path.join(k1, 'flnk_dir'))
+    L('../k1x/g', os.path.join(k1, 'flnk_px'))
     if variant == 1:      # the storage directory itself is reached through a symlink
         os.rename(store, os.path.join(base, 'realstore'))
         os.symlink('realstore', store)
@@ -128,8 +131,17 @@ def run_op(case):
     earlier, every call is judged on the layout it meets."""
     base = tempfile.mkdtemp(dir=subdir('fsbox'))
     try:
-        store = build_sandbox(base, case['variant'])
-        storage = LocalStorage(store, with_gitignore=False)
+        store = build_sandbox(base, 0 if case['variant'] == 2 else case['variant'])
+        if case['variant'] == 2:
+            # the storage directory is given as a relative path; afterwards the process changes its working directory to a
+            # place that has a directory of the same relative name (a decoy with the same layout)
+            os.makedirs(os.path.join(base, 'other'))
+            build_sandbox(os.path.join(base, 'other'), 0)
+            os.chdir(base)
+            storage = LocalStorage('store', with_gitignore=False)
+            os.chdir(os.path.join(base, 'other'))
+        else:
+            storage = LocalStorage(store, with_gitignore=False)
         for step in case.get('pre', []):
             try:
                 _do(storage, step)
@@ -168,6 +180,7 @@ def run_op(case):
         obs['base'] = base_real
         return obs
     finally:
+        os.chdir(CWD0)
         shutil.rmtree(base, ignore_errors=True)
 
 
@@ -213,6 +226,9 @@ def monitor(case, obs):
         return ('nested-write', f'a file below a sub-directory of the key directory was touched: {deep}')
     if case['op'] == 'exists' and inside:
         return ('exists-modified', f'exists() modified {inside}')
+    if case['op'] == 'file' and obs['outcome'] is None and obs['rs_file'][0] == 'ok' and obs['rs_key'][0] == 'ok':
+        if os.path.dirname(obs['rs_file'][1]) != obs['rs_key'][1]:
+            return ('opened-outside-key-dir', f"file_handle opened {obs['rs_file'][1]}, which is not directly inside the key directory {obs['rs_key'][1]}")
     if obs['outcome'] and obs['outcome'].startswith('Other'):
         return ('unexpected-exception', f"raised {obs.get('exc')}")
     return None
@@ -254,7 +270,7 @@ def gen_case(rng):
     key = rng.choice(KEYS)
     if rng.random() < 0.1:
         key = rng.choice(KEYS) + rng.choice(['', '/', '.', 'x', '\\'])
-    case = dict(op=op, key=key, variant=rng.choice([0, 0, 0, 1]))
+    case = dict(op=op, key=key, variant=rng.choice([0, 0, 0, 1, 2]))
     if op == 'file':
         case['filename'] = rng.choice(FILES)
         case['mode'] = rng.choice(MODES)
@@ -263,7 +279,7 @@ def gen_case(rng):
 
 DIRECTED = [dict(op='file', key=k, filename=f, mode=m, variant=v)
             for k, f in (('k1', 'flnk_out'), ('k1', 'flnk_dangling'), ('k1', 'flnk_sib'), ('k1', 'flnk_dir'), ('k1', 'flnk_in'),
-                         ('k1', '../k2/g'), ('k1', '/etc/passwd_lv'), ('k1', 'sub/inner'), ('lnk_sib', 'f1'), ('lnk_out', 'canary'),
+                         ('k1', '../k2/g'), ('k1', '../k1x/g'), ('k1', 'flnk_px'), ('k1', '/etc/passwd_lv'), ('k1', 'sub/inner'), ('lnk_sib', 'f1'), ('lnk_out', 'canary'),
                          ('lnk_abs', 'deep'), ('lnk_deep', 'inner'), ('lnk_up', 'plainfile'), ('new', 'newfile'), ('k2', 'g'))
             for m in ('r', 'w', 'a') for v in (0, 1)] + \
            [dict(op=o, key=k, variant=v) for o in ('delete', 'exists')
